@@ -29,6 +29,7 @@ RULE = ("base filters with a string literal in every syntactic position (compari
         "payload contains at least one SQL metacharacter")
 RULE += (" " + "Also: long and mixed in-lists (2..1001 items of 8 literal kinds around the payload); payload dictionary harvested at run time from the translators' source; templates whose sibling argument carries quotes and SQL.")
 RULE += (" Code-point sweep: every Unicode code point U+0000..U+10FFFF (surrogates included) sits inside a string literal in 12 non-pattern literal positions x 3 dialects, 4096 (quick) / 256 (thorough) consecutive code points per literal; a failing block is bisected to its shortest failing run.")
+RULE += (" " + 'Function-table templates: every function of the OData table x every argument position as string position, plain and under not-or.')
 ASSUMPTIONS = ["vpmon/ref/sql_lex.py implements SQL-92 lexical rules ('' and \"\" doubling, "
                "-- and /* */ comments)",
                "the table alias is developer input, not attacker input",
